@@ -242,7 +242,7 @@ class Cluster:
             self.proxy.close()
         self._kill(self.follower)
         self._kill(self.leader)
-        if os.environ.get("C09_KEEP"):      # debugging aid: keep the data dirs and logs (under the run's scratch dir)
+        if os.environ.get("C09_KEEP") and getattr(self, "keep", True):      # debugging aid: keep the data dirs and logs of a failing run
             shutil.copytree(self.root, os.environ["C09_KEEP"] + "-" + os.path.basename(self.root), dirs_exist_ok=True)
         shutil.rmtree(self.root, ignore_errors=True)
 
@@ -424,6 +424,7 @@ class Workload:
         self.ops = 0
         self.okops = 0
         self.kinds = {}
+        self.short_gone = 0.0   # wall time at which every short-lived lock taken so far has expired on the leader (deadline + 1 s tick) and its UNLOCK is out
 
     def close(self):
         self.c.close()
@@ -456,6 +457,8 @@ class Workload:
                 args += ["SET", "v-%d-%s" % (self.nid, "x" * r.randrange(0, 40))]
             if self._do("lock", *args):
                 self.held.append((key, lid, long_lived))
+                if not long_lived:
+                    self.short_gone = max(self.short_gone, time.time() + exp + 1.6)
         elif k < 55:    # re-entrant re-lock
             key, lid, _ = r.choice(self.held if provoke else longs)
             self._do("relock", "LOCK", key, "LOCK_ID", lid, "TIMEOUT", 0, "EXPRIED", r.randrange(100, 200) | ZERO_AOF, "COUNT", 3, "RCOUNT", 4)
@@ -473,6 +476,12 @@ class Workload:
             i = r.randrange(len(self.held))
             key, lid, _ = self.held.pop(i)
             self._do("unlock", "UNLOCK", key, "LOCK_ID", lid)
+
+    def wait_short_gone(self, cap=4.0):
+        """before a quiescent point: let the short-lived locks expire (their expiry is a replicated UNLOCK record)"""
+        w = min(cap, self.short_gone - time.time())
+        if w > 0:
+            time.sleep(w)
 
     def run(self, n, **kw):
         for _ in range(n):
@@ -513,65 +522,127 @@ class Run:
                                             "(timing is not reproducible, the seed, the scenario and the steps are)"}))
 
     # -- quiescence + comparison
-    def settle(self, where, timeout=14.0, cause=""):
-        t0 = time.time()
-        last = None
-        stable = 0
-        ls = fs = {}
-        inf = {}
-        while time.time() - t0 < timeout:
-            try:
-                inf = info(self.cl.lport)
-                ls = snapshot(self.cl.lport)
-                fs = snapshot(self.cl.fport)
-            except (OSError, ValueError) as e:
-                time.sleep(0.2)
-                continue
-            fol = inf.get("followers") or []
-            caught = bool(fol) and all(f.get("behind_offset") == "0" and f.get("aof_file_send_finish") == "yes" for f in fol)
-            d = diff_snap(ls, fs)
-            if caught and not d and last == ls:
-                stable += 1
-                if stable >= 2:
-                    self.compares += 1
-                    self.note(f"{where}: converged after {time.time() - t0:.1f}s ({sum(len(v) for v in ls.values())} holds on {len(ls)} keys)")
-                    return True
-            else:
-                stable = 0
-            last = ls
-            time.sleep(0.25)
-        self.compares += 1
+    GRACE = 3            # holds whose deadline is within GRACE s of "now" on either node are not compared (expiry = a replicated UNLOCK in flight)
+    PERSIST = 3          # a difference counts only if seen in this many consecutive valid comparisons …
+    APART = 1.5          # … at least this far apart
+
+    @staticmethod
+    def _caught_up(inf):
         fol = inf.get("followers") or []
-        d = diff_snap(ls, fs)
-        sfx = (":" + cause) if cause else ""
-        detail = "; ".join(f"{k} key={key} lockId={lid} leader={a} follower={b}" for k, key, lid, a, b in d[:6])
-        if not fol:
-            self.violation("C09:follower-never-converges" + sfx, f"{where}: {timeout:.0f}s after the leader went idle the follower is not connected (leader INFO shows no follower); "
-                           f"{len(d)} holds differ: {detail}")
-        elif any(f.get("behind_offset") != "0" or f.get("aof_file_send_finish") != "yes" for f in fol):
-            self.violation("C09:follower-never-converges" + sfx, f"{where}: {timeout:.0f}s after the leader went idle the follower is still behind: {fol}; {len(d)} holds differ: {detail}")
-        elif d:
-            kinds = {x[0] for x in d}
-            # is the follower at least what a RECOVERY of the leader's own persisted log yields? (then the cause is the AOF load, not replication)
-            try:
-                sh_ = self.shadow_snapshot()
-                if not diff_snap(sh_, fs):
-                    sfx += ":equals-leader-recover"
-                    detail += f" [a fresh process recovering a copy of the leader's data dir holds exactly what the follower holds ({sum(len(v) for v in sh_.values())} holds)]"
-            except Exception as e:   # noqa
-                detail += f" [shadow recovery failed: {e}]"
-            stale = [x for x in d if x[0] == "extra" and self.last_full_pre is not None and (x[1], x[2]) in self.last_full_pre]
-            if stale:
-                self.violation("C09:stale-state-after-full-resync" + sfx, f"{where}: after a resynchronisation from scratch the follower still holds what it held before "
-                               f"and the leader does not: {detail}")
-            elif "missing" in kinds:
-                self.violation("C09:follower-missing-record" + sfx, f"{where}: follower connected and caught up (behind_offset=0) but {len(d)} holds differ: {detail}")
-            elif "extra" in kinds:
-                self.violation("C09:follower-extra-hold" + sfx, f"{where}: follower connected and caught up (behind_offset=0) but {len(d)} holds differ: {detail}")
+        return bool(fol) and all(f.get("behind_offset") == "0" and f.get("aof_file_send_finish") == "yes" for f in fol)
+
+    def _drop_near_deadline(self, ls, fs):
+        """remove from both snapshots every hold (key, lockId) whose deadline on EITHER node is within GRACE s of the current second"""
+        now = int(time.time())
+        near = set()
+        for snap in (ls, fs):
+            for k, hs in snap.items():
+                for hd in hs:
+                    if abs(hd[2] - now) <= self.GRACE:
+                        near.add((k, hd[0]))
+        def f(snap):
+            out = {}
+            for k, hs in snap.items():
+                keep = [hd for hd in hs if (k, hd[0]) not in near]
+                if keep:
+                    out[k] = keep
+            return out
+        return f(ls), f(fs), len(near)
+
+    def _compare_once(self):
+        """One VALID comparison or None: INFO (follower connected, behind_offset=0, file send finished), leader snapshot, follower
+        snapshot, leader snapshot again, INFO again — both INFOs caught up and the two leader snapshots identical (after the
+        near-deadline exclusion); otherwise something was still moving and the comparison does not count."""
+        try:
+            i1 = info(self.cl.lport)
+            l1 = snapshot(self.cl.lport)
+            fs = snapshot(self.cl.fport)
+            l2 = snapshot(self.cl.lport)
+            i2 = info(self.cl.lport)
+        except (OSError, ValueError):
+            return None, {}
+        if not (self._caught_up(i1) and self._caught_up(i2)) or i1.get("current_offset") != i2.get("current_offset"):
+            return None, i2
+        a1, f1, _ = self._drop_near_deadline(l1, fs)
+        a2, _, _ = self._drop_near_deadline(l2, fs)
+        if a1 != a2:
+            return None, i2
+        return (a1, f1, diff_snap(a1, f1)), i2
+
+    def settle(self, where, timeout=20.0, cause=""):
+        """Converged = one valid comparison without a difference. A difference is reported only if the SAME set of differing holds is
+        seen in PERSIST consecutive valid comparisons ≥ APART s apart (at most `timeout` s, extended once if a streak is under way)."""
+        if self.wl is not None:
+            self.wl.wait_short_gone()
+        t0 = time.time()
+        streak, streak_key, last_valid, last_t = 0, None, None, 0.0
+        inf = {}
+        valid = 0
+        limit = timeout
+        while time.time() - t0 < limit:
+            res, inf_ = self._compare_once()
+            inf = inf_ or inf
+            if res is None:
+                streak, streak_key = 0, None      # something was moving: restart the comparison
+                time.sleep(0.3)
+                continue
+            valid += 1
+            ls, fs, d = res
+            last_valid = res
+            if not d:
+                self.compares += 1
+                self.note(f"{where}: converged after {time.time() - t0:.1f}s ({sum(len(v) for v in ls.values())} holds on {len(ls)} keys)")
+                return True
+            key = tuple(sorted((x[0], x[1], x[2]) for x in d))
+            now = time.time()
+            if key == streak_key:
+                if now - last_t >= self.APART:
+                    streak += 1
+                    last_t = now
             else:
-                self.violation("C09:follower-diverged" + sfx, f"{where}: follower connected and caught up (behind_offset=0) but {len(d)} holds differ ({sorted(kinds)}): {detail}")
+                streak, streak_key, last_t = 1, key, now
+            if streak >= self.PERSIST:
+                break
+            if streak >= 2 and limit - (now - t0) < 2 * self.APART:
+                limit += 2 * self.APART       # do not give up in the middle of a streak
+            time.sleep(0.5)
+        self.compares += 1
+        sfx = (":" + cause) if cause else ""
+        fol = inf.get("followers") or []
+        if streak < self.PERSIST:
+            if not fol:
+                self.violation("C09:follower-never-converges" + sfx, f"{where}: {limit:.0f}s after the leader went idle the follower is not connected "
+                               f"(leader INFO shows no follower; {valid} valid comparisons)")
+            elif valid == 0:
+                self.violation("C09:follower-never-converges" + sfx, f"{where}: {limit:.0f}s after the leader went idle the follower is still behind / the leader still moving: {fol}")
+            else:
+                d = last_valid[2]
+                self.violation("C09:follower-never-converges" + sfx, f"{where}: within {limit:.0f}s neither equality nor a stable difference was observed "
+                               f"({valid} valid comparisons, last difference: {[(x[0], x[2][-6:]) for x in d[:6]]})")
+            return False
+        ls, fs, d = last_valid
+        detail = "; ".join(f"{k} key={key} lockId={lid} leader={a} follower={b}" for k, key, lid, a, b in d[:6])
+        detail = f"the same {len(d)} holds differ in {self.PERSIST} consecutive comparisons ≥ {self.APART}s apart (follower connected, behind_offset=0, leader unchanged): " + detail
+        kinds = {x[0] for x in d}
+        # is the follower at least what a RECOVERY of the leader's own persisted log yields? (then the cause is the AOF load, not replication)
+        try:
+            sh_ = self.shadow_snapshot()
+            sh_f, fs_f, _ = self._drop_near_deadline(sh_, fs)
+            if not diff_snap(sh_f, fs_f):
+                sfx += ":equals-leader-recover"
+                detail += f" [a fresh process recovering a copy of the leader's data dir holds exactly what the follower holds ({sum(len(v) for v in sh_.values())} holds)]"
+        except Exception as e:   # noqa
+            detail += f" [shadow recovery failed: {e}]"
+        stale = [x for x in d if x[0] == "extra" and self.last_full_pre is not None and (x[1], x[2]) in self.last_full_pre]
+        if stale:
+            self.violation("C09:stale-state-after-full-resync" + sfx, f"{where}: after a resynchronisation from scratch the follower still holds what it held before "
+                           f"and the leader does not: {detail}")
+        elif "missing" in kinds:
+            self.violation("C09:follower-missing-record" + sfx, f"{where}: {detail}")
+        elif "extra" in kinds:
+            self.violation("C09:follower-extra-hold" + sfx, f"{where}: {detail}")
         else:
-            self.violation("C09:follower-never-converges" + sfx, f"{where}: the leader's own holds did not become stable within {timeout:.0f}s")
+            self.violation("C09:follower-diverged" + sfx, f"{where}: ({sorted(kinds)}) {detail}")
         return False
 
     def shadow_snapshot(self):
@@ -768,6 +839,8 @@ def scenario(seed, root, kind):
     finally:
         if run.wl:
             run.wl.close()
+        cl.keep = bool([m for m in run.mon if m[0] not in ("C09:follower-missing-record:cut-before-first-file-record",
+                                                           "C09:follower-diverged:expired-record:equals-leader-recover")])
         run.alive = (cl.leader is not None and cl.leader.poll() is None, cl.follower is not None and cl.follower.poll() is None)
         run.logs = {n: "\n".join(l for l in cl.log_text(n).splitlines() if "protocol connection" not in l)[-6000:] for n in ("leader", "follower")}
         cl.stop()
